@@ -10,6 +10,9 @@ checks = {
  "C02": ("exploration", "4.7, 6/C02",
          "Seeded model-based simulation: generated histories of all Interface and BlobWriter operations on a fresh ocimem (both configurations), every return value and the observable state checked step by step against an executable reference registry; content readers fail at seeded byte positions. Hundreds of thousands of distinct histories per quick run; a failure is minimised to a few operations and replayed in a fresh process.",
          "deterministic simulation: seeded history generation with fault-injecting content readers, checked operation-by-operation against a reference model (refreg); choice-trace replay and delta-debugging minimisation"),
+ "C04": ("exploration", "4.5, 6/C04",
+         "Seeded simulation of upload sessions (content, partition into writes, chunk-size hint, close/resume/abandon/stale-offset pattern) on ocimem directly and through one or two ociclient->ociserver hops over the simulated network, which loses requests and responses, duplicates requests and breaks connections inside request bodies at seeded points. Oracles: committed bytes equal the bytes written, stale offsets are refused with RANGE_INVALID/416 and leave the session unaltered, a wrong digest stores nothing, and after the last fault the upload completes within a bounded number of calls.",
+         "deterministic simulation with network fault injection (drop/duplicate/truncate at seeded exchanges, client crash), end-to-end byte oracle, bounded liveness after faults stop; choice-trace replay and minimisation"),
 }
 
 na = [
